@@ -39,4 +39,56 @@ def handlers(emit, repo):
             r_obs = {"ok": False, "etype": type(exc).__name__, "val": []}
         emit({"e": "RevDFS", "table": t_obs, "ret": r_obs})
 
-    return {"revdfs": job_revdfs}
+    def decode(v):
+        """Tagged Python value (module Malformed) -> the Python value."""
+        ty = v["ty"]
+        if ty == "int":
+            return v["v"]
+        if ty == "float":
+            return v["v"] / v["d"]
+        if ty == "str":
+            return v["s"]
+        if ty == "none":
+            return None
+        if ty == "tuple":
+            return tuple(decode(x) for x in v["items"])
+        if ty == "list":
+            return [decode(x) for x in v["items"]]
+        raise ValueError("bad tagged value " + repr(v))
+
+    def msg_class(msg):
+        if msg == "Game solved":
+            return "solved"
+        if msg == "Game not solved":
+            return "notsolved"
+        if isinstance(msg, str) and msg.startswith("Error while solving the game"):
+            return "error"
+        return "other"
+
+    def job_malformed(job):
+        import copy
+        import logging
+        tad = _fresh("tad")
+        cr = _fresh("conditionalrewards")
+        logging.disable(logging.CRITICAL)
+        from . import games
+        desc = {k: decode(job["tg"][k]) for k in ("rewards", "players", "transition_list", "final_states")}
+        base = games.to_python(job["base"])
+        for prune in (True, False):
+            try:
+                d = copy.deepcopy(desc)
+                tad.StochasticGame(prune_states=prune, **d).solve()
+                emit({"e": "Direct", "prune": prune, "k": "Return", "etype": ""})
+            except Exception as exc:
+                emit({"e": "Direct", "prune": prune, "k": "Raise", "etype": type(exc).__name__})
+        try:
+            gd = {"good_first": copy.deepcopy(base), "bad": copy.deepcopy(desc), "good_last": copy.deepcopy(base)}
+            out = cr.run_games(gd)
+            keys = list(out.keys())
+            emit({"e": "Batch", "crashed": False, "etype": "", "keys": [str(k) for k in keys],
+                  "msgs": [msg_class(out[k].get("msg")) for k in keys],
+                  "hasres": [out[k].get("final_strategies") is not None for k in keys]})
+        except Exception as exc:
+            emit({"e": "Batch", "crashed": True, "etype": type(exc).__name__, "keys": [], "msgs": [], "hasres": []})
+
+    return {"revdfs": job_revdfs, "malformed": job_malformed}
